@@ -29,6 +29,13 @@ def _mk_files(k, workdir, rnd):
             b = open(path, "rb").read()
             open(path, "wb").write(os.urandom(0x1000) + b)
         out.append({"path": path, "kind": kind, "soname": so, "off": off, "exec": ex, "delete": dele, "archive": arch, "oracle": info})
+    if k % 3 == 0:
+        # a library replaced on disk while it is loaded: the old image (deleted) and the new one (another build id) are both mapped from the same path
+        path = os.path.join(d, f"{k}_libreplaced.so.4")
+        p_total.mkelf(path + ".new", "elf", soname="libreplaced.so.4", idseed=(17 * k + 101) % 250 + 1)
+        info = p_total.mkelf(path, "elf", soname="libreplaced.so.4", idseed=(17 * k + 100) % 250 + 1)
+        out.append({"path": path, "kind": "elf", "soname": "libreplaced.so.4", "off": 0, "exec": True, "delete": True, "archive": False, "oracle": info, "recreate_from": path + ".new", "gap_before": True})
+        out.append({"path": path, "kind": "elf", "soname": "libreplaced.so.4", "off": 0, "exec": True, "delete": False, "archive": False, "oracle": info, "gap_before": True})
     return out
 
 
@@ -39,7 +46,7 @@ def _scenarios(quick, seed, workdir):
     for k in range(8 if quick else 150):
         files = _mk_files(k, workdir, rnd)
         tgt = dumps.base_target(1, file_maps=[{"path": f["path"], "off": f["off"], "len": 0x3000 if not f["archive"] else 0x3000, "exec": f["exec"], "delete": f["delete"],
-                                                     "split": (k + j) % 2 == 0} for j, f in enumerate(files)])
+                                                     "split": (k + j) % 2 == 0, **{x: f[x] for x in ("recreate_from", "gap_before") if x in f}} for j, f in enumerate(files)])
         w = {"blamed": "main"}
         mode = k % 4
         if mode == 1:      # a caller mapping that describes the first mapped file: exactly its merged extent, or (every other time) its first three pages
